@@ -53,8 +53,13 @@ func (r *schedRun) finish() {
 // ev appends an event to the history.  Called by the (single) running
 // goroutine or by the controller while everything is blocked.
 func (r *schedRun) ev(format string, a ...interface{}) {
+	e := fmt.Sprintf(format, a...)
+	who := verifSelf()
 	r.s.mu.Lock()
-	r.hist = append(r.hist, fmt.Sprintf(format, a...))
+	r.hist = append(r.hist, e)
+	if !r.s.free {
+		r.s.tlog = append(r.s.tlog, "E "+who+" "+e)
+	}
 	r.s.mu.Unlock()
 }
 
